@@ -83,7 +83,20 @@ class SQLiteAlterTableSQLResult(AlterTableSQLResult):
                         new_initial[field.column] = initial
             elif op == 'DELETE COLUMN':
                 needs_rebuild = True
-                deleted_columns.add(item['column'])
+                column = item['column']
+
+                added_columns = [
+                    _field.column
+                    for _field in added_fields
+                ]
+
+                if column in added_columns:
+                    # This column was added earlier in this same batch of
+                    # operations, so just don't add it.
+                    del added_fields[added_columns.index(column)]
+                    new_initial.pop(column, None)
+                else:
+                    deleted_columns.add(column)
             elif op == 'RENAME COLUMN':
                 needs_rebuild = True
                 old_field = item['old_field']
@@ -146,10 +159,15 @@ class SQLiteAlterTableSQLResult(AlterTableSQLResult):
             if _field.db_type(connection=connection) is not None
         ]
 
+        # Note that a column may be deleted and then re-added in the same
+        # batch of operations. Only the old column is considered deleted.
         new_fields = [
             replaced_fields.get(_field.column, _field)
-            for _field in old_fields + added_fields
+            for _field in old_fields
             if _field.column not in deleted_columns
+        ] + [
+            replaced_fields.get(_field.column, _field)
+            for _field in added_fields
         ]
 
         field_values = OrderedDict()
